@@ -173,12 +173,19 @@ def conclude(prop, tier, seed, results, t0, a):
             + (["no obligation generated"] if n_ob == 0 else []))
     if a.only and exit_code == 0:
         exit_code, reason = 2, "partial run (--only)"
+    # vacuity guard: the contract-level obligations (refinement clauses, lemmas, layout, scenario
+    # clauses) must not be fewer than on the unchanged tree; call-site obligations are not counted
+    # because a harmless refactoring may add or remove call sites
+    import re as _re
+    core = [k for k in groups if _re.search(r"/post/|^lemma/|/layout/|^steps/|^fault\[|^main/|^C\d\d/",
+                                           k[0])]
+    n_core = len(core)
     baseline = load_baseline().get(prop)
-    if exit_code == 0 and baseline and n_ob < baseline.get("obligations", 0) \
+    if exit_code == 0 and baseline and n_core < baseline.get("core_obligations", 0) \
             and not os.environ.get("VERIF_NO_BASELINE"):
         exit_code = 2
-        reason = (f"only {n_ob} obligations generated, the committed baseline has "
-                  f"{baseline['obligations']}: a contract no longer attaches")
+        reason = (f"only {n_core} contract-level obligations generated, the committed baseline has "
+                  f"{baseline['core_obligations']}: a contract no longer attaches")
     fn_jobs = sorted({tuple(r["job"][:3]) for r in results})
     hashes = {}
     for r in results:
@@ -197,6 +204,7 @@ def conclude(prop, tier, seed, results, t0, a):
         "wall_s": round(wall, 2), "violations": len(violations),
         "coverage": {
             "obligations": n_ob, "discharged": n_dis + len(known_reported) * 0,
+            "core_obligations": n_core,
             "checker_cmd": f"./check {prop} --tier {tier}",
             "trusted_base": sorted(T.TRUSTED),
             "trusted_base_text": T.TRUSTED,
